@@ -19,6 +19,13 @@ func Dump(v any) string {
 	return d.sb.String()
 }
 
+// DumpValue is Dump for a reflect.Value (e.g. one obtained through Get).
+func DumpValue(v reflect.Value) string {
+	d := &dumper{ids: map[uintptr]int{}}
+	d.walk(v)
+	return d.sb.String()
+}
+
 // DumpShallow is Dump except that pointer fields whose name is in shallow
 // are not followed into unvisited objects: such a field renders as nil, as
 // ^id when its target was already visited, or as ?{first-level scalars}
